@@ -465,6 +465,8 @@ def run(chk):
     chk.verdict("Q4", ini, "unassigned sites raise", True if "any((tensor is None for tensor in self._site_data.values()))" in ltxt else False,
                 "Lattice.__init__ lost the check that every unique site got an object")
 
+    from . import e10
+    e10.run_U(chk, ("yastn.tn.fpeps._geometry",), floor1=5, floor2=1)
 
 MUTANTS = [
     ("dir table entry", "yastn/tn/fpeps/_geometry.py", "'tl': (-1, -1), 't': (-1, 0), 'tr': (-1,  1),", "'tl': (-1, -1), 't': (-1, 0), 'tr': (-1,  -1),", "Q1"),
